@@ -826,6 +826,7 @@ def make_body(cfg):
                 fed += 1
             obs['sim_calls'] = env.bpr + fed
         st = bsl.state
+        obs['state_keys'] = sorted(st.keys())
         obs.update(params=np.asarray(st['params'], dtype=float)[:, 0].tolist(),
                    logprior=np.asarray(st['logprior'], dtype=float).tolist(),
                    logposterior=np.asarray(st['logposterior'], dtype=float).tolist(),
@@ -1063,12 +1064,37 @@ def run_path(case):
     return ok(outcome=digest(run.obs.get('params')))
 
 
+KNOWN_STATE_KEYS = {'logposterior', 'logprior', 'n_batches', 'n_samples', 'n_sim', 'n_sim_round', 'params', 'round', 'gamma'}
+
+
+def state_layout():
+    """The keys of the chain state the real sample() loop leaves behind (public path, default environment answers).
+    Sections that fill the chain state by hand are only meaningful for the layout they know: an implementation that
+    keeps further per-slot fields (with its own invariants between them) is judged through the public path only."""
+    cfg = {'drive': 'sample', 'rows': [[-1, 5]], 'prior': 'uniform', 'ret': 'array1', 'useed': 1, 'n_sim_round': 2,
+           'batch_size': 2, 'N': 2}
+    try:
+        run = explore.run_once(make_body(cfg), [])
+        return sorted(run.obs.get('state_keys') or [])
+    except Exception:  # noqa  (the trees report it)
+        return None
+
+
 RUNNERS = {'standard': run_standard, 'unbiased': run_unbiased, 'misspec': run_misspec, 'semiparam': run_semiparam,
            'transform': run_transform, 'ratio': run_ratio, 'process': run_process, 'tree': run_tree, 'path': run_path}
 
 
 def replay(case):
+    if case['kind'] in ('ratio', 'process') or case.get('drive') == 'steps':
+        if _LAYOUT[0] is None:
+            keys = state_layout()
+            _LAYOUT[0] = bool(keys is not None and set(keys) <= KNOWN_STATE_KEYS)
+        if not _LAYOUT[0]:     # a hand-filled chain state means nothing for a state layout the harness does not know
+            return ok(outcome='hand-filled-state-case-skipped:unknown-chain-state-layout', trivial=True)
     return _guard(RUNNERS[case['kind']])(case)
+
+
+_LAYOUT = [None]
 
 
 def _guard(fn):
@@ -1214,8 +1240,17 @@ def run(ctx):
                     c['fine'] = False
         _record_with_witness(ctx, g_transform, cases, 'transform', sample_every=max(1, len(cases) // 3))
 
+    # hand-filled chain states are only used when the implementation's state has the layout the harness knows
+    keys = state_layout()
+    handbuilt = keys is not None and set(keys) <= KNOWN_STATE_KEYS
+    ctx.extra['chain_state_layout'] = {'keys_left_by_sample': keys, 'hand_filled_sections_run': bool(handbuilt)}
+    if not handbuilt:
+        ctx.assumptions.append('the chain state of this tree has fields the harness does not know (%r): the sections that '
+                               'fill the state by hand (mh-ratio, mh-process, mh-step) were skipped, the Metropolis-Hastings '
+                               'clauses are decided by mh-chain (real sample() loop) alone, explored deeper' % (keys,))
+
     # ---------------------------------------------------------------- mh-ratio
-    if want('mh-ratio'):
+    if want('mh-ratio') and handbuilt:
         cases = [{'kind': 'ratio', 'rows': None, 'p': 1}, {'kind': 'ratio', 'rows': None, 'p': 2}]
         cases += [{'kind': 'ratio', 'rows': [list(r) for r in t]}
                   for p_ in (1, 2) for t in itertools.product(rows, repeat=p_)]
@@ -1223,7 +1258,7 @@ def run(ctx):
 
     # ---------------------------------------------------------------- mh-process
     one = [None] + [[list(r)] for r in rows]
-    if want('mh-process'):
+    if want('mh-process') and handbuilt:
         cases = [{'kind': 'process', 'rows': r, 'prior': pr, 'ret': ret, 'useed': base + k}
                  for r in one if r is None or max(_f(r[0][0]), 0.0) < min(_f(r[0][1]), 4.0) for pr in ('uniform', 'truncnorm') for ret in ('array1', 'float')
                  for k in range(2 if q else 6)]
@@ -1231,7 +1266,7 @@ def run(ctx):
 
     # ---------------------------------------------------------------- mh-step (mode E, harness-driven steps)
     env_rows = [None, [[0, 4]], [[-1, 5]], [[0, 'inf']], [['-inf', 4]], [['-inf', 'inf']]]
-    if want('mh-step'):
+    if want('mh-step') and handbuilt:
         cases = []
         for r in env_rows:
             combos = [('uniform', 'array1', (2, 2)), ('truncnorm', 'float', (2, 1))]
@@ -1254,7 +1289,7 @@ def run(ctx):
     # ---------------------------------------------------------------- mh-chain (mode E on the real sample() loop)
     if want('mh-chain'):
         cases = []
-        for r in ([None, [[-1, 5]], [[0, 'inf']]] if q else env_rows):
+        for r in ([None, [[-1, 5]], [[0, 'inf']]] if (q and handbuilt) else env_rows):
             for lay in ((2, 2), (2, 1)):
                 c = {'kind': 'tree', 'drive': 'sample', 'rows': r, 'prior': 'uniform', 'ret': 'array1',
                      'useed': base + 1, 'n_sim_round': lay[0], 'batch_size': lay[1], 'N': 2 if q else 3}
